@@ -107,7 +107,15 @@ SegClass(got, exp, full) ==
   ELSE IF got.e > full.e \/ got.s < full.s THEN "outside-full"
   ELSE IF got.s > got.e THEN "start-after-end"
   ELSE "off"
-SegDevs(logged, S) ==
+\* a logged segment agrees with the computed one if it is equal, or (typed sections) starts on the same marker line and
+\* ends between the last non-blank line of the section and its computed end (trailing blank lines are optional), or
+\* (SHORT, "may not include imports") is any non-empty range inside FULL
+LastNonBlankIn(ls, a, b) == Max({i \in a..b : ls[i] # "blank"})
+Agrees(ls, n, got, exp, full) ==
+  \/ got = exp
+  \/ n = "SHORT" /\ full.s <= got.s /\ got.s <= got.e /\ got.e <= full.e
+  \/ n \notin {"FULL", "SHORT"} /\ exp # NoSeg /\ got.s = exp.s /\ got.e <= exp.e /\ got.e >= LastNonBlankIn(ls, exp.s, exp.e)
+SegDevs(ls, logged, S) ==
   LET names == <<"FULL", "SHORT">> \o SegNames
       exp(n) == CASE n = "FULL" -> S.FULL [] n = "SHORT" -> S.SHORT [] n = "CLIENT_INITIALIZATION" -> S.CLIENT_INITIALIZATION
                   [] n = "REQUEST_INITIALIZATION" -> S.REQUEST_INITIALIZATION [] n = "REQUEST_EXECUTION" -> S.REQUEST_EXECUTION
@@ -115,14 +123,14 @@ SegDevs(logged, S) ==
       got(n) == LET m == {i \in 1..Len(logged) : logged[i].type = n} IN
                 IF m = {} THEN NoSeg ELSE [s |-> logged[One(m)].s, e |-> logged[One(m)].e]
   IN {"segments:" \o names[i] \o ":" \o SegClass(got(names[i]), exp(names[i]), S.FULL)
-        : i \in {i \in 1..Len(names) : got(names[i]) # exp(names[i])}}
+        : i \in {i \in 1..Len(names) : ~Agrees(ls, names[i], got(names[i]), exp(names[i]), S.FULL)}}
       \cup {"segments:duplicate-type" : i \in {i \in 1..Len(logged) : \E j \in 1..Len(logged) : j # i /\ logged[j].type = logged[i].type}}
 
 TMeta == /\ IsEvent("Meta") /\ stage = "parse"
          /\ segs' = Segments(lines) /\ index' = index \cup {[Entry EXCEPT !.segs = segs']} /\ stage' = "embed"
          /\ UNCHANGED <<api, specs, focus, lines, embed, phase, req, seen>>
          /\ IF ~E.present THEN Note({"meta:entry-missing"})
-            ELSE Note(SegDevs(E.segments, segs')
+            ELSE Note(SegDevs(lines, E.segments, segs')
                       \cup If(E.count = 1, "meta:entry-count")
                       \cup If(E.file = E.actualFile, "meta:file")
                       \cup If(E.client = ClientName(focus.svc, focus.kind), "meta:client-name")
